@@ -22,7 +22,7 @@ import p_schema as PS
 import translate_re as TR
 from codec import M, sansldap
 
-LEAN_TARGETS = ["Verif.Props.C18"]
+LEAN_TARGETS = ["Verif.Props.C18", "Verif.Props.C18Filter", "Verif.Props.TiesSchema"]
 LEVEL = "proof"
 ASSUMPTIONS = [
     "the running time of CPython's re engine on an input is at most a constant times the size of the backtracking search tree (Re.work)",
@@ -31,6 +31,82 @@ ASSUMPTIONS = [
 ]
 
 EXP_RATIO = 5.0     # work(k+3)/work(k) above this on two consecutive steps = multiplies per unit (a degree-3 polynomial gives < 2.3 at these k)
+
+
+# ---------------------------------------------------------------- deterministic step counts of the hand-written parsers
+
+class StepBudget(BaseException):
+    pass
+
+
+PARSER_FUNCS = ("_unpack_filter", "_unpack_complex_filter", "_unpack_simple_filter")
+
+
+def step_bound(n):
+    """a quadratic with a generous constant: the library's own Python-level steps are below 100 per input byte on every family measured"""
+    return 100 * (n + 1) ** 2 + 5000
+
+
+def count_steps(fn, budget):
+    """run fn() counting executed source lines inside the sansldap package (a deterministic step count: no clock involved) and calls per
+    function name; stops the run when the budget is exceeded"""
+    import sys
+
+    steps = 0
+    calls = collections.Counter()
+
+    def tracer(frame, event, arg):
+        nonlocal steps
+        co = frame.f_code
+        if "sansldap" not in co.co_filename:
+            return None
+        if event == "call":
+            calls[co.co_name] += 1
+            return tracer
+        if event == "line":
+            steps += 1
+            if steps > budget:
+                raise StepBudget()
+        return tracer
+
+    old = sys.gettrace()
+    sys.settrace(tracer)
+    try:
+        fn()
+        out = "ok"
+    except StepBudget:
+        out = "budget"
+    except RecursionError:
+        out = "RecursionError"
+    except Exception as e:  # noqa: BLE001
+        out = type(e).__name__
+    finally:
+        sys.settrace(old)
+    return steps, calls, out
+
+
+def filter_cost_inputs(rng, ctx):
+    """filter strings for the cost check: nested families of every operator, valid and broken at the innermost level or at the tail, wide
+    lists, long values, plus generated sentences and their single-character edits"""
+    out = []
+    leaves_ok = ["(a=b)", "(a=*)", "(a>=1)", "(a:dn:1.2:=x)", "(a=x*y*z)", "(a=\\41)"]
+    leaves_bad = ["(a", "(a=b", "(\\zz", "(a=\\zz)", "(=b)", "a", "", "(a=b)(", "((a=b)", "(a=b))", "(a=**)", "(!)"]
+    for depth in sorted(set(list(range(1, 13)) + [16, 20, 24, 28, 32, 36, 40])):
+        for ops in ("!", "&", "|", "!&", "&|!", "|&"):
+            pre = "".join("(" + ops[i % len(ops)] for i in range(depth))
+            for leaf in leaves_ok[: ctx.scale(2, 6)] + leaves_bad:
+                for close in (depth, depth - 1, 0):
+                    out.append(pre + leaf + ")" * max(close, 0))
+            out.append("".join("(" + ops[i % len(ops)] + "(a=b)" for i in range(depth)) + "(x" + ")" * depth)
+    for k in (1, 5, 20, 60):
+        out += ["(&" + "(a=b)" * k + ")", "(|" + "(a=b)" * k + "(a", "(a=" + "\\41" * k + ")", "(a=" + "x*" * k + ")", "(" + " " * k + "a=b)",
+                "(" * k, ")" * k, "(&" + "(a)" * k, "(a" + ";b" * k + "=x)"]
+    for _ in range(ctx.scale(300, 4000)):
+        f = PF.g_tree(rng, rng.choice([1, 2, 3, 5]))
+        t = PF.sentence(rng, f)
+        out.append(t)
+        out.append(PF.mutate(rng, t))
+    return [t for t in out if len(t) <= 400]
 
 
 def py_patterns():
@@ -178,6 +254,49 @@ def run(ctx):
         elif ts[-1] > 2.0:
             violations.append({"key": None, "what": "an input of a few hundred / thousand bytes stalls the caller for more than 2 s", "family": label,
                                "sizes": list(sizes[: len(ts)]), "seconds": [round(t, 4) for t in ts]})
+    # ---------------- 4. hand-written filter parser: call-count correspondence with the counting model, step counts against the quadratic bound
+    ftexts = filter_cost_inputs(rng, ctx)
+    creq = []
+    for t in ftexts:
+        n = len(t.strip().encode("utf-8", errors="surrogateescape"))
+        steps, calls, out = count_steps(lambda: sansldap.LDAPFilter.from_string(t), step_bound(n))
+        evaluations += 1
+        hist["steps:filter:" + ("ok" if out == "ok" else "budget" if out == "budget" else "rejected")] += 1
+        distinct.add(("steps", t[:12], len(t)))
+        if out == "budget":
+            violations.append({"key": None, "what": "the filter parser's step count exceeds the quadratic bound 100*(n+1)^2+5000 (executed source lines, "
+                               "deterministic): super-polynomial or badly super-quadratic parsing", "text": t, "bytes": n, "steps_when_stopped": steps,
+                               "parser_calls_when_stopped": sum(calls[f] for f in PARSER_FUNCS)})
+            if sum(1 for v in violations if "step count" in v["what"]) >= 5:
+                break
+            continue
+        if all(f in calls or True for f in PARSER_FUNCS) and any(f in calls for f in PARSER_FUNCS) and out != "RecursionError" and t.count("(") < 150:
+            creq.append(({"op": "fparsec", "cps": [ord(c) for c in t]}, sum(calls[f] for f in PARSER_FUNCS), out == "ok", t))
+    if ctx.driver_ok and creq:
+        got = drive.run_model([q for q, _, _, _ in creq])
+        for (q, pycalls, pyok, t), g in zip(creq, got):
+            if g.get("calls") != pycalls or g.get("ok") != pyok:
+                disagreements.append({"what": "the number of _unpack_filter/_unpack_complex_filter/_unpack_simple_filter calls differs from the counting model "
+                                      "(Model/FilterCost.lean)", "text": t, "python_calls": pycalls, "python_ok": pyok, "model": g})
+                if len(disagreements) > 10:
+                    break
+        hist["calls:compared"] = len(creq)
+    # the same step bound on the other hand-written loops: schema post-processing and receive (total bytes delivered as the size)
+    for label, make, sizes in step_families(ctx):
+        for k in sizes:
+            box = {}
+
+            def go():
+                box["n"] = make(k, box)
+
+            steps, calls, out = count_steps(go, step_bound(box.get("n") or 40 * k + 200) * 4)
+            n = box.get("n", 0)
+            evaluations += 1
+            hist["steps:" + label] = max(hist.get("steps:" + label, 0), steps)
+            if out == "budget" or (n and steps > step_bound(n)):
+                violations.append({"key": None, "what": "step count exceeds the quadratic bound 100*(n+1)^2+5000 (executed source lines)", "family": label,
+                                   "size_parameter": k, "bytes": n, "steps": steps})
+                break
     return {
         "evaluations": evaluations,
         "distinct_nontrivial": len(distinct),
@@ -185,7 +304,10 @@ def run(ctx):
                 "CPython's; (2) pumping candidates (each substring of length 1-4 of generated sentences repeated k=4,7,10 times, tail kept or broken) "
                 "are scored with the model's exact step count Re.work and confirmed by timing from_string when the count multiplies; (3) fixed "
                 "adversarial families (unterminated strings, escapes, space runs, list items, arcs, options, nesting, byte-by-byte delivery) are timed "
-                "at growing sizes on the public API; distinct = distinct (pattern, unit, context) and families",
+                "at growing sizes on the public API; (4) the filter parser is run under a line tracer on nested / wide / broken families and generated "
+                "sentences: executed source lines must stay below 100*(n+1)^2+5000 and the number of parser-function calls must equal the counting "
+                "model's (Model/FilterCost.lean); the same step bound is applied to schema post-processing and receive families; "
+                "distinct = distinct (pattern, unit, context), families and step inputs",
         "samples": samples,
         "histogram": dict(sorted(hist.items())),
         "requests": len(reqs),
@@ -252,6 +374,60 @@ def confirm(kind, pre, u, tail):
     big = [t for t in ts if t > 0.002]
     expo = len(big) >= 4 and all(b > 1.5 * a for a, b in zip(big[-4:], big[-3:])) and ts[-1] > 0.2
     return {"k": ks, "seconds": [round(t, 4) for t in ts], "exponential": bool(expo)}
+
+
+
+def step_families(ctx):
+    S = PS.CLS
+    sizes = ctx.scale((4, 16, 64), (4, 16, 64, 256, 1024))
+
+    def sch(kind, text_of):
+        def make(k, box):
+            t = text_of(k)
+            box["n"] = len(t)
+            try:
+                S[kind].from_string(t)
+            except ValueError:
+                pass
+            return len(t)
+        return make
+
+    fam = [
+        ("schema:extensions", sch("oc", lambda k: "( 1.2" + " X-a ( 'v'  'w' )" * k + " )"), sizes),
+        ("schema:extension-values", sch("oc", lambda k: "( 1.2 X-a (" + " 'v\\27'" * k + " ) )"), sizes),
+        ("schema:names", sch("at", lambda k: "( 1.2 NAME (" + " 'a'" * k + " ) )"), sizes),
+        ("schema:oids", sch("dcr", lambda k: "( 1.2 MUST ( a" + " $ a" * k + " ) )"), sizes),
+        ("schema:desc-escapes", sch("oc", lambda k: "( 1.2 DESC '" + "\\27\\5c" * k + "' )"), sizes),
+    ]
+
+    def recv(build, bytewise):
+        def make(k, box):
+            data = build(k)
+            box["n"] = len(data)
+            s = sansldap.LDAPServer()
+            try:
+                if bytewise:
+                    for b in data:
+                        s.receive(bytes([b]))
+                else:
+                    s.receive(data)
+            except sansldap.LDAPError:
+                pass
+            return len(data)
+        return make
+
+    o = M.PackingOptions()
+    one = M.ExtendedRequest(message_id=1, controls=[], name="1.2", value=None).pack(o)
+    import p_recv
+    fam += [
+        ("receive:many-messages", recv(lambda k: one * k, False), sizes),
+        ("receive:many-messages-bytewise", recv(lambda k: one * k, True), tuple(x for x in sizes if x <= 64)),
+        ("receive:long-value-bytewise", recv(lambda k: M.ExtendedRequest(message_id=1, controls=[], name="1.2", value=b"x" * (4 * k)).pack(o), True),
+         tuple(x for x in sizes if x <= 256)),
+        ("receive:nested-filter", recv(lambda k: p_recv.nesting_bomb("and", min(k, 400)), False), sizes),
+        ("receive:nested-not", recv(lambda k: p_recv.nesting_bomb("not", min(k, 400)), False), sizes),
+    ]
+    return fam
 
 
 def timing_families(ctx):
